@@ -220,7 +220,7 @@ func (g *Gen) pickAuction(pref types.AuctionStatus) (types.AuctionI, bool) {
 			cand = append(cand, a)
 		}
 	}
-	if len(cand) > 0 && g.r.P(85) {
+	if len(cand) > 0 && g.r.P(94) {
 		return cand[g.r.N(len(cand))], true
 	}
 	return as[g.r.N(len(as))], true
@@ -283,11 +283,15 @@ func (g *Gen) bid() Op {
 	// quantities (in selling coin) worth trying
 	qty := func() math.Int {
 		base := supply
-		if g.r.P(60) {
+		if g.r.P(70) {
 			base = cap
 		}
 		var q math.Int
-		switch g.r.N(9) {
+		switch g.r.N(12) {
+		case 9, 10:
+			q = mulDiv(base, 1, 5)
+		case 11:
+			q = mulDiv(base, 1, 7)
 		case 0:
 			q = math.NewInt(1)
 		case 1:
@@ -341,6 +345,11 @@ func (g *Gen) bid() Op {
 		}
 	} else {
 		ps = g.normalPrice()
+		if ba, ok := a.(*types.BatchAuction); ok {
+			for i := 0; i < 6 && pDec(ps).LT(ba.MinBidPrice); i++ {
+				ps = g.normalPrice()
+			}
+		}
 		if g.r.P(5) {
 			ps = g.price()
 		}
@@ -630,6 +639,29 @@ func (g *Gen) Next() Op {
 			}
 			return NewOp("APIADD", "a", fmt.Sprint(a.GetId()), "l", strings.Join(l, ";"))
 		}
+	}
+	nStarted, nStandBy := 0, 0
+	var nextStart int64
+	for _, a := range as {
+		switch a.GetStatus() {
+		case types.AuctionStatusStarted:
+			nStarted++
+		case types.AuctionStatusStandBy:
+			if nStandBy == 0 || a.GetStartTime().UnixNano() < nextStart {
+				nextStart = a.GetStartTime().UnixNano()
+			}
+			nStandBy++
+		}
+	}
+	if nStarted == 0 && nStandBy > 0 && g.r.P(55) {
+		t := nextStart + g.r.PickI(-1, 0, 0, 1, 1)
+		if t < g.now() {
+			t = g.now()
+		}
+		return NewOp("BLOCK", "t", fmt.Sprint(t))
+	}
+	if nStarted == 0 && nStandBy == 0 && g.r.P(60) {
+		return g.create(g.profile == "fixed" || (g.profile != "batch" && g.r.P(50)))
 	}
 	total := 0
 	kinds := []string{"CFA", "CBA", "CAN", "BID", "MOD", "ADDMSG", "PARAMS", "APIADD", "APIUPD", "BLOCK", "SEND", "LISTEN", "GENESIS", "FBLOCK"}
